@@ -1,7 +1,7 @@
 //@unit C10_lists
 //@props C10 C04
 //@safetyprops C14
-//@desc List and graph maintenance the sweep's termination and memory safety rest on. SetOwner - BOUNDED (any acyclic owner graph over 4 OutRecs, any pair outrec/new_owner, points present or not): afterwards outrec's owner is new_owner, only those two are re-linked, and the owner graph is still ACYCLIC (every `while (x->owner)` walk - GetRealOutRec, RecursiveCheckOwners, IsValidOwner - ends). DeleteFromAEL - list of 1..3 edges: an edge that is in the list is unlinked (both directions, head updated) and freed exactly once; an edge that is not (already deleted) is left alone. SwapPositionsInAEL - list of 2..4 edges, any adjacent pair: exactly those two change places, every link stays consistent in both directions, the head is updated. InsertRightEdge - list of 1..4 edges: the new edge sits immediately to the right of e, all links consistent.
+//@desc List and graph maintenance the sweep's termination and memory safety rest on. SetOwner - BOUNDED (any acyclic owner graph over 4 OutRecs, any pair outrec/new_owner, points present or not): afterwards outrec's owner is new_owner, only those two are re-linked, and the owner graph is still ACYCLIC (every `while (x->owner)` walk - GetRealOutRec, RecursiveCheckOwners, IsValidOwner - ends). DeleteFromAEL - list of 1..3 edges: an edge that is in the list is unlinked (both directions, head updated) and freed exactly once; an edge that is not (already deleted) is left alone. SwapPositionsInAEL - list of 2..4 edges, any adjacent pair: exactly those two change places, every link stays consistent in both directions, the head is updated. InsertLeftEdge - list of 0..4 edges, IsValidAelOrder a stub answering per resident: the new edge is linked in right after the longest run of residents (from the head) that must stay on its left, never between the two edges of a joined pair, head updated, links consistent. InsertRightEdge - list of 1..4 edges: the new edge sits immediately to the right of e, all links consistent.
 #include "vf.h"
 //@include engine_types.inc
 unsigned nondet_uint(void); bool nondet_bool(void);
@@ -104,7 +104,36 @@ void h_InsR(void)
   VF_CANARY();
 }
 #endif
+/* ---------- InsertLeftEdge: where a new edge goes in the active edge list ---------- */
+#ifdef INSL
+Active g_a4[4]; Active g_new; bool g_valid[4];
+static bool IsValidAelOrder__p(const Active* resident, const Active* newcomer) { for (int i = 0; i < 4; ++i) if (resident == &g_a4[i]) return g_valid[i]; return nondet_bool(); }
+#define IsValidAelOrder(r, n) IsValidAelOrder__p(&(r), &(n))
+//@extract file=CPP/Clipper2Lib/src/clipper.engine.cpp func=ClipperBase::InsertLeftEdge self=ClipperBase byptr=e ifdef=INSL
+//@sub /&\(\*e\)/e/ min=0
+//@end
+void h_InsL(void)
+{
+  ClipperBase cb; unsigned n = nondet_uint(); __CPROVER_assume(n <= 4);
+  for (unsigned i = 0; i < 4; ++i) { g_a4[i].prev_in_ael = (i > 0 && i < n) ? &g_a4[i - 1] : NULL; g_a4[i].next_in_ael = (i + 1 < n) ? &g_a4[i + 1] : NULL; g_valid[i] = nondet_bool(); g_a4[i].join_with = JoinWith_NoJoin; }
+  /* optionally one joined pair (k, k+1): pairing invariant of C10_joins */
+  unsigned jk = nondet_uint(); if (jk < 3 && jk + 1 < n) { g_a4[jk].join_with = JoinWith_Right; g_a4[jk + 1].join_with = JoinWith_Left; }
+  cb.actives_ = n ? &g_a4[0] : NULL;
+  InsertLeftEdge(&cb, &g_new);
+  /* expected position: after the longest run of residents, from the head, that must stay left of the newcomer; never between the two edges of a joined pair */
+  unsigned p = 0; for (unsigned i = 0; i < 4; ++i) if (i < n && p == i && g_valid[i]) p = i + 1;
+  if (p > 0 && g_a4[p - 1].join_with == JoinWith_Right) p = p + 1;
+  Active* q = cb.actives_; Active* prev = NULL; unsigned seen = 0;
+  for (unsigned i = 0; i <= 4; ++i) if (i <= n) {
+    if (i == p) { __CPROVER_assert(q == &g_new && q->prev_in_ael == prev, "the new edge sits right after the residents that must stay on its left (and not inside a joined pair)"); prev = q; q = q->next_in_ael; }
+    if (i < n) { __CPROVER_assert(q == &g_a4[i] && q->prev_in_ael == prev, "residents keep their order, links consistent both ways"); prev = q; q = q->next_in_ael; }
+  }
+  __CPROVER_assert(q == NULL, "and the list ends there");
+  VF_CANARY();
+}
+#endif
 //@run name=SetOwner.bounded entry=h_SetOwner defs=OWNER unwind=7 flags=SAFETY solver=cadical timeout=300 bounded="owner graph over 4 OutRecs (any acyclic graph, any pair outrec/new_owner)"
 //@run name=DeleteFromAEL entry=h_Del defs=AEL unwind=5 flags=SAFETY solver=cadical timeout=120 bounded="active edge list of 1..3 edges (the function is loop-free; the bound is on the list the harness builds)"
 //@run name=SwapPositionsInAEL entry=h_Swap defs=SWAP unwind=6 flags=SAFETY solver=cadical timeout=120 bounded="active edge list of 2..4 edges, any adjacent pair (the function is loop-free)"
 //@run name=InsertRightEdge entry=h_InsR defs=INSR unwind=6 flags=SAFETY solver=cadical timeout=120 bounded="active edge list of 1..4 edges, any position (the function is loop-free)"
+//@run name=InsertLeftEdge entry=h_InsL defs=INSL unwind=7 flags=SAFETY solver=cadical timeout=300 bounded="active edge list of 0..4 edges, IsValidAelOrder answering arbitrarily per resident, at most one joined pair" props=C10,C01,C13
